@@ -20,6 +20,7 @@ DECIDED = [
     "in flight at the stop get the worker's graceful_shutdown_time (argument mapping) before anything is cancelled",
     "R-C10-PLUGIN: the testing plugin builds its worker with the literal messages_limit=1 and runs it inside the wrapped enqueue after "
     "the real enqueue",
+    "R-C10-GATE (shared counter): the started-executions counter compared with max_tasks is state of the runner, not a local of one queue's loop; R-C10-STOP (order): finish_gracefully precedes the consumers' finish() (C03's shutdown rules reused)",
 ]
 NOT_DECIDED = ["that run() returns promptly once M executions have finished (timing)"]
 ASSUMPTIONS = ["C09 (ownership): tasks are spawned only by the consume loop"]
